@@ -401,7 +401,8 @@ func (st *runState) run(workers int) int {
 			defer wg.Done()
 			sem <- true
 			defer func() { <-sem }()
-			out := filepath.Join(st.work, fmt.Sprintf("res_%s_%s_%s_%d.json", pkgKey(w.run.Unit.Pkg), w.run.Unit.Job, w.run.Config, w.shard))
+			// (units that differ only in their parameters - cpus=3, cpus=6 - run side by side: the parameters are part of the file name)
+			out := filepath.Join(st.work, fmt.Sprintf("res_%s_%s_%s_%016x_%d.json", pkgKey(w.run.Unit.Pkg), w.run.Unit.Job, w.run.Config, hashStr(w.run.Unit.Params), w.shard))
 			res, keys, err := runWorker(w.run.Bin, w.run.Unit, w.run.Config, st.tier, st.seed, w.shard, w.n, -1, deadline, out)
 			mu.Lock()
 			defer mu.Unlock()
